@@ -195,6 +195,7 @@ macro "avoid_auto" : tactic => `(tactic| repeat' (first
   | split
   | (apply avoid_filterMapM; intro _ _)
   | (apply avoid_mapM; intro _ _)
+  | (apply avoid_flatMapM; intro _ _)
   | (apply avoid_map)
   | dsimp only))
 
